@@ -41,21 +41,12 @@ def reflection_exception(info):
 
 
 def instrumented_guard(g, node, recv):
-    """is `node` only reachable through the true side of a test of <recv>.instrumented?"""
-    for t in g.nodes:
-        if t.kind != 'test':
-            continue
-        # conjunctions: `self.instrumented and self.live_spy`
-        conj = t.ast.values if isinstance(t.ast, ast.BoolOp) and isinstance(t.ast.op, ast.And) else [t.ast]
-        for part in conj:
-            inner, pol = strip_not(part)
-            if dotted(inner) == recv + '.instrumented':
-                lab = 'true' if pol else 'false'
-                if len(conj) > 1 and lab == 'false':
-                    continue
-                if guarded_by_edge(g, node, t, lab):
-                    return True
-    return False
+    """on every path on which `node` executes, <recv>.instrumented is known to be true there (path-sensitive propagation through the tests,
+    whatever their shape: nesting, and/or/not, early returns; assignments of the flag inside the function are followed)"""
+    from sa.boolflow import values_at
+    k = recv + '.instrumented'
+    vals = values_at(g, node, {k})
+    return bool(vals) and all(v.get(k) is True for v in vals)
 
 
 def check(run, model, tier):
